@@ -41,6 +41,7 @@ class Verifier(Executor):
         self.raised = []
         self.paths = 0
         self.incomplete = []  # reasons why an unroll-mode run is not a complete proof
+        self.binding_notes = []  # loop headers that differ from the contract's fingerprint (ordinal binding used)
 
     # ------------------------------------------------------------------ loops
     def loop_contract(self, node):
@@ -57,7 +58,13 @@ class Verifier(Executor):
         if fp:
             actual = ("for " + ast.unparse(node.iter)) if isinstance(node, ast.For) else ("while " + ast.unparse(node.test))
             if "".join(fp.split()) != "".join(actual.split()):
-                raise VerifError(f"binding failure: loop {k} fingerprint {actual!r} != {fp!r}")
+                if fp.split()[0] != actual.split()[0]:
+                    raise VerifError(f"binding failure: loop {k} fingerprint {actual!r} != {fp!r}")
+                # same kind of loop at the same ordinal, header rewritten: the loop contract is tried as it is; a proof found this way is a
+                # proof (every obligation is still discharged against the real text), a failure is reported as a binding failure, not as a violation
+                msg = f"binding failure: loop {k} fingerprint {actual!r} != {fp!r}"
+                if msg not in self.binding_notes:
+                    self.binding_notes.append(msg)
         return lc
 
     def iter_spec(self, node, st):
@@ -141,9 +148,38 @@ class Verifier(Executor):
                 e = e.value
             return e.id if isinstance(e, ast.Name) else None
 
+        def add_all(v):
+            if isinstance(v, dict):
+                for x in v.values():
+                    add_all(x)
+            else:
+                add_obj(v)
+
+        def obj_of_expr(e, root):
+            """the object designated by a name / attribute chain / subscript of one (self.problem.triggers, self.stacks_top[0])"""
+            while isinstance(e, ast.Subscript):
+                e = e.value
+            chain = []
+            while isinstance(e, ast.Attribute):
+                chain.append(e.attr)
+                e = e.value
+            if not isinstance(e, ast.Name):
+                return
+            if not chain or e.id not in env:
+                obj_of_name(e.id, root)
+                return
+            v = env[e.id]
+            for a in reversed(chain):
+                if isinstance(v, dict) and a in v:
+                    v = v[a]
+                else:
+                    add_all(env[e.id])  # unknown attribute path: everything reachable may be written
+                    return
+            add_all(v)
+
         def obj_of_name(nm, root):
             if nm in env:
-                add_obj(env[nm])
+                add_all(env[nm]) if isinstance(env[nm], dict) else add_obj(env[nm])
                 return
             # defined inside the analysed statements: follow its defining expressions
             for sub in ast.walk(root):
@@ -168,21 +204,15 @@ class Verifier(Executor):
                         if isinstance(n, ast.Name) and isinstance(n.ctx, ast.Store):
                             names.add(n.id)
                     if isinstance(t, ast.Subscript):
-                        nm = base_name(t)
-                        if nm:
-                            obj_of_name(nm, root)
+                        obj_of_expr(t, root)
                     if isinstance(t, (ast.Tuple, ast.List)):
                         for e in t.elts:
                             if isinstance(e, ast.Subscript):
-                                nm = base_name(e)
-                                if nm:
-                                    obj_of_name(nm, root)
+                                obj_of_expr(e, root)
             if isinstance(sub, ast.Call):
                 f = sub.func
                 if isinstance(f, ast.Attribute) and f.attr in ("insert", "append", "fill", "sort"):
-                    nm = base_name(f.value)
-                    if nm:
-                        obj_of_name(nm, root)
+                    obj_of_expr(f.value, root)
                 elif isinstance(f, ast.Name):
                     callee = None
                     try:
@@ -208,12 +238,11 @@ class Verifier(Executor):
                         pn = []
                     mods = con.modifies if con is not None and con.modifies is not None else None
                     for k, a in enumerate(sub.args):
-                        nm = base_name(a)
-                        if nm is None:
+                        if base_name(a) is None:
                             continue
                         if mods is not None and k < len(pn) and pn[k] not in mods:
                             continue
-                        obj_of_name(nm, root)
+                        obj_of_expr(a, root)
         gc = getattr(self.cur_contract, "extra", {}).get("ghost_calls", {}) if self.cur_contract else {}
         for sub in ast.walk(root):
             if isinstance(sub, ast.Call) and isinstance(sub.func, ast.Name) and sub.func.id in gc:
